@@ -444,6 +444,9 @@ func (e *FnEnc) instr(in ssa.Instruction) {
 		e.setHeap(md, sx("store", e.heap(md), r, fmt.Sprintf("((as const (Array %s Bool)) false)", s.SortOf(mt.Key()))))
 		e.setHeap(MapLen, sx("store", e.heap(MapLen), r, "0"))
 		e.vals[i] = Val{T: r, Ty: i.Type()}
+		if !mapEscapes(i) {
+			e.locals = append(e.locals, localRef{md.Name, r}, localRef{s.MapVal(mt.Key(), mt.Elem()).Name, r}, localRef{MapLen.Name, r})
+		}
 	case *ssa.MapUpdate:
 		m, k, v := e.val(i.Map), e.val(i.Key), e.val(i.Value)
 		mt := i.Map.Type().Underlying().(*types.Map)
@@ -789,4 +792,34 @@ func escapes(a *ssa.Alloc) bool {
 		return false
 	}
 	return visit(a, 0)
+}
+
+// mapEscapes: the map created here is used as a first-class value (stored, passed, returned, captured).
+func mapEscapes(m *ssa.MakeMap) bool {
+	refs := m.Referrers()
+	if refs == nil {
+		return true
+	}
+	for _, r := range *refs {
+		switch u := r.(type) {
+		case *ssa.MapUpdate:
+			if u.Map != m {
+				return true
+			}
+		case *ssa.Lookup:
+			if u.X != m {
+				return true
+			}
+		case *ssa.Range:
+		case *ssa.DebugRef:
+		case *ssa.Call:
+			b, ok := u.Call.Value.(*ssa.Builtin)
+			if !ok || (b.Name() != "len" && b.Name() != "delete") {
+				return true
+			}
+		default:
+			return true
+		}
+	}
+	return false
 }
